@@ -10,30 +10,33 @@
 (* carries no annotation, so no layout can cause a rejection by itself.          *)
 EXTENDS Integers, TLC, Json
 
-VARIABLES nl, multi, quote, pad, comments, lead, tail
-vars == <<nl, multi, quote, pad, comments, lead, tail>>
+VARIABLES nl, multi, quote, pad, comments, split, lead, tail
+vars == <<nl, multi, quote, pad, comments, split, lead, tail>>
 
-Init == nl = "lf" /\ multi = 0 /\ quote = 0 /\ pad = 0 /\ comments = 0 /\ lead = 0 /\ tail = 0
+Init == nl = "lf" /\ multi = 0 /\ quote = 0 /\ pad = 0 /\ comments = 0 /\ split = 0 /\ lead = 0 /\ tail = 0
 
-SetNewline(k)   == nl' = k /\ k \in {"lf", "crlf", "cr"} /\ UNCHANGED <<multi, quote, pad, comments, lead, tail>>
-SetStyle(m)     == multi' = m /\ m \in 0..2 /\ UNCHANGED <<nl, quote, pad, comments, lead, tail>>
+SetNewline(k)   == nl' = k /\ k \in {"lf", "crlf", "cr"} /\ UNCHANGED <<multi, quote, pad, comments, split, lead, tail>>
+SetStyle(m)     == multi' = m /\ m \in 0..2 /\ UNCHANGED <<nl, quote, pad, comments, split, lead, tail>>
 \* rule names: 0 all bare, 1 all quoted, 2 quoted at the top of the annotation and bare inside nested rule-sets,
 \* 3 the reverse, 4 every second name quoted
-SetQuotes(q)    == quote' = q /\ q \in 0..4 /\ UNCHANGED <<nl, multi, pad, comments, lead, tail>>
+SetQuotes(q)    == quote' = q /\ q \in 0..4 /\ UNCHANGED <<nl, multi, pad, comments, split, lead, tail>>
 \* padding between tokens: 0-2 blanks, 3 a tab, 4 a blank and a tab
-Pad(n)          == pad' = n /\ n \in 0..4 /\ UNCHANGED <<nl, multi, quote, comments, lead, tail>>
-Comments(n)     == comments' = n /\ n \in 0..4 /\ UNCHANGED <<nl, multi, quote, pad, lead, tail>>
-LeadingBlank(n) == lead' = n /\ n \in 0..1 /\ UNCHANGED <<nl, multi, quote, pad, comments, tail>>
-TrailingBlank(n) == tail' = n /\ n \in {0, 2} /\ UNCHANGED <<nl, multi, quote, pad, comments, lead>>
+Pad(n)          == pad' = n /\ n \in 0..4 /\ UNCHANGED <<nl, multi, quote, comments, split, lead, tail>>
+Comments(n)     == comments' = n /\ n \in 0..4 /\ UNCHANGED <<nl, multi, quote, pad, split, lead, tail>>
+\* one annotation written as two: 1 = `/* note */ // {rules}` (or the first rule apart from the others) on one line,
+\* 2 = `// {rules}` and the note as an annotation of its own on the next line
+Split(n)        == split' = n /\ n \in 0..2 /\ UNCHANGED <<nl, multi, quote, pad, comments, lead, tail>>
+LeadingBlank(n) == lead' = n /\ n \in 0..1 /\ UNCHANGED <<nl, multi, quote, pad, comments, split, tail>>
+TrailingBlank(n) == tail' = n /\ n \in {0, 2} /\ UNCHANGED <<nl, multi, quote, pad, comments, split, lead>>
 
 Next == \/ \E k \in {"lf", "crlf", "cr"} : SetNewline(k)
         \/ \E m \in 0..4 : SetStyle(m) \/ Pad(m) \/ Comments(m)
         \/ \E q \in 0..4 : SetQuotes(q)
-        \/ \E n \in 0..2 : LeadingBlank(n) \/ TrailingBlank(n)
+        \/ \E n \in 0..2 : LeadingBlank(n) \/ TrailingBlank(n) \/ Split(n)
 Spec == Init /\ [][Next]_vars
 
 \* every layout is reachable from every other one: the orbit is one connected class
-TypeOK == nl \in {"lf", "crlf", "cr"} /\ multi \in 0..2 /\ quote \in 0..4 /\ pad \in 0..4 /\ comments \in 0..4 /\ lead \in 0..1 /\ tail \in {0, 2}
-Emit == PrintT(ToJson([nl |-> nl, multi |-> multi, quote |-> quote, pad |-> pad, comments |-> comments,
+TypeOK == nl \in {"lf", "crlf", "cr"} /\ multi \in 0..2 /\ quote \in 0..4 /\ pad \in 0..4 /\ comments \in 0..4 /\ split \in 0..2 /\ lead \in 0..1 /\ tail \in {0, 2}
+Emit == PrintT(ToJson([nl |-> nl, multi |-> multi, quote |-> quote, pad |-> pad, comments |-> comments, split |-> split,
                        lead_blank |-> lead, tail_blank |-> tail]))
 ===============================================================================
